@@ -1,6 +1,6 @@
 (* C13 — each tolerance switch relaxes only its own check; relaxing never loses tags.  Statements only. *)
 From Ebml Require Import Base Tools Spec Reader Pure Proofs.Tactics Proofs.ReaderIO Proofs.Refine Proofs.CapBound Proofs.PureProofs
-  Proofs.ErrKinds Proofs.RoundTrip Proofs.Monotone.
+  Proofs.ErrKinds Proofs.RoundTrip Proofs.Monotone Proofs.RawOnlyUndeclared Proofs.AuditErrKinds.
 
 (* Tolerating a class makes that error kind impossible, and in strict mode no successful item is (or contains) a raw tag: for
    every configuration, every input and every sequence of next()/try_recover() calls, every result of the abstract reader's
@@ -70,6 +70,127 @@ Theorem C13_header_error_kinds : forall c st st' e, p_header c st = (st', Err e)
      (exists n hl, e = ROversized (b_off st) id n /\ c_allow_over c = false /\ p_invalid_tag_size st' (N.of_nat hl + n) = true) \/
      (exists n m, e = RInvalidSize (b_off st) id n /\ c_max c = Some m /\ m < n)).
 Proof. exact header_error_kinds. Qed.
+
+(* ------------------------------------------------------------------ completeness and priority: the FIRST failing check *)
+(* C13_header_error_kinds is soundness only (a reported kind implies its own cause).  The header check IS the decision list
+   [first_failure] (Proofs/AuditErrKinds.v): the checks are made in the order of the code, each only if all earlier ones passed,
+   and the first that fails determines the result (error and state); if none fails the header is returned:
+     1. id bytes present                                   else REof (cursor) None None None
+     2. size field a complete, well-formed vint            else RInvalidTagData (malformed) / REof (cursor) (Some id) None None
+     3. a numeric element (unsigned/signed/float) declares at most 8 bytes          else RInvalidTagData
+     4. id known to the specification, or unknown ids tolerated                     else RInvalidTagId
+     5. hierarchy step [p_hier_step]: no check if hierarchy problems are tolerated, if the id is unknown, or if the document
+        position is undetermined and the declared path has a placeholder; otherwise the open masters (seeded with the implied
+        parents while the position is undetermined) must match the declared path   else RHierarchy
+     6. the element ends inside every enclosing known-size master, or oversized children are tolerated
+                                                           else ROversized, judged with header length = id bytes + size-field bytes
+     7. no size limit, or unknown size, or declared size <= limit                    else RInvalidSize
+   There is no "corrupt id" error in the code or the model: a first byte 0x00 is read as the one-byte id 0.
+   Every error carries the cursor offset (= the offset of the offending element) EXCEPT RHierarchy, which has no position
+   field at all (HierarchyError { found_tag_id, current_parent_id } in errors.rs): "at the element's offset" does not apply to it. *)
+Theorem C13_header_error_priority : forall c st, p_header c st = first_failure c st.
+Proof. exact header_decision. Qed.
+
+(* the same, check by check.  1: the id bytes are incomplete *)
+Theorem C13_reports_id_incomplete : forall c st e, p_tag_id st = Err e ->
+  p_header c st = (st, Err e) /\ e = REof (b_off st) None None None.
+Proof. exact reports_id_incomplete. Qed.
+
+(* 2: the id was decoded, the size field is malformed / incomplete *)
+Theorem C13_reports_size_malformed : forall c st id idl x, p_tag_id st = Ok (id, idl) ->
+  read_vint (firstn 8 (skipn idl (b_bytes st))) = Err x -> p_header c st = (st, Err (RInvalidTagData (b_off st) id)).
+Proof. intros c st id idl x H1 H2. exact (reports_size_malformed c st id idl H1 x H2). Qed.
+Theorem C13_reports_size_incomplete : forall c st id idl, p_tag_id st = Ok (id, idl) ->
+  read_vint (firstn 8 (skipn idl (b_bytes st))) = Ok None -> p_header c st = (st, Err (REof (b_off st) (Some id) None None)).
+Proof. exact reports_size_incomplete. Qed.
+
+(* 3: id and size field decoded, the element is numeric and declares more than 8 bytes *)
+Theorem C13_reports_numeric_size : forall c st id idl size sl, p_tag_id st = Ok (id, idl) ->
+  read_vint (firstn 8 (skipn idl (b_bytes st))) = Ok (Some (size, sl)) ->
+  is_numeric (get_type (c_sp c) id) = true -> 8 < size -> p_header c st = (st, Err (RInvalidTagData (b_off st) id)).
+Proof. intros. eapply reports_numeric_size; eassumption. Qed.
+
+(* 4: id and size field decoded, the id is unknown and unknown ids are not tolerated: InvalidTagId at the element's offset,
+   whatever the other switches, the open masters and the declared size (an unknown id is never numeric, so check 3 passes) *)
+Theorem C13_reports_unknown_id : forall c st id idl size sl, p_tag_id st = Ok (id, idl) ->
+  read_vint (firstn 8 (skipn idl (b_bytes st))) = Ok (Some (size, sl)) ->
+  get_type (c_sp c) id = None -> c_allow_id c = false -> p_header c st = (st, Err (RInvalidTagId (b_off st) id)).
+Proof. intros. eapply reports_unknown_id; eassumption. Qed.
+
+(* 5: id and size field decoded, check 3 passes, the id is known (so check 4 passes), hierarchy problems are not tolerated, the
+   document position is determined, and the open masters do not match the declared path: HierarchyError with the found id and
+   the innermost open master ([top_id]); no offset *)
+Theorem C13_reports_hierarchy : forall c st id idl size sl d, p_tag_id st = Ok (id, idl) ->
+  read_vint (firstn 8 (skipn idl (b_bytes st))) = Ok (Some (size, sl)) ->
+  is_numeric (get_type (c_sp c) id) && (8 <? size) = false ->
+  get_type (c_sp c) id = Some d -> c_allow_hier c = false -> b_det st = true ->
+  validate_tag_path (c_sp c) id (stack_view (b_stack st)) = false ->
+  p_header c st = (st, Err (RHierarchy id (top_id (b_stack st)))).
+Proof. intros. eapply reports_hierarchy; eassumption. Qed.
+
+(* 5, position undetermined, declared path without placeholder: the element is judged against the open masters plus its
+   implied parents [stk] (which the state returned then has open) *)
+Theorem C13_reports_hierarchy_seeded : forall c st id idl size sl d stk, p_tag_id st = Ok (id, idl) ->
+  read_vint (firstn 8 (skipn idl (b_bytes st))) = Ok (Some (size, sl)) ->
+  is_numeric (get_type (c_sp c) id) && (8 <? size) = false ->
+  get_type (c_sp c) id = Some d -> c_allow_hier c = false -> b_det st = false ->
+  all_ids (get_path (c_sp c) id) = true -> implied_stack (c_sp c) (get_path (c_sp c) id) = Some stk ->
+  validate_tag_path (c_sp c) id (stack_view (b_stack st ++ stk)) = false ->
+  p_header c st = (pset_stack st (b_stack st ++ stk) true, Err (RHierarchy id (top_id (b_stack st ++ stk)))).
+Proof. intros. eapply reports_hierarchy_seeded; eassumption. Qed.
+
+(* [checks_1_to_5 c st id idl size sl st1]: checks 1-5 pass - the id decodes to id (idl bytes), the size field to size (sl bytes),
+   a numeric element declares at most 8 bytes, the id is known or unknown ids are tolerated, and the hierarchy step raises no
+   error and no bad-specification panic, leaving the state st1 (st itself, or st with the implied parents opened).
+   6: then, oversized children not being tolerated, an element that overruns an enclosing known-size master - judged with the
+   header length idl + sl actually decoded - is reported as OversizedChildElement at the element's offset with its declared
+   size ([ksz]: the known size, 0 for an unknown size) *)
+Theorem C13_reports_oversized_child : forall c st id idl size sl st1, checks_1_to_5 c st id idl size sl st1 ->
+  c_allow_over c = false -> p_invalid_tag_size st1 (N.of_nat (idl + sl) + ksz (ebml_size size sl)) = true ->
+  p_header c st = (st1, Err (ROversized (b_off st) id (ksz (ebml_size size sl)))).
+Proof. intros c st id idl size sl st1 [H1 [H2 [H3 [H4 [H5 H6]]]]]. exact (reports_oversized_child c st id idl H1 size sl H2 H3 st1 H4 H5 H6). Qed.
+
+(* 7: checks 1-6 pass and the declared size is known and above the limit: InvalidTagSize at the element's offset with that size,
+   under every setting of the three tolerance switches that lets checks 4-6 pass *)
+Theorem C13_reports_size_limit : forall c st id idl size sl st1 m n, checks_1_to_5 c st id idl size sl st1 ->
+  negb (c_allow_over c) && p_invalid_tag_size st1 (N.of_nat (idl + sl) + ksz (ebml_size size sl)) = false ->
+  c_max c = Some m -> ebml_size size sl = SKnown n -> m < n ->
+  p_header c st = (st1, Err (RInvalidSize (b_off st) id n)).
+Proof. intros c st id idl size sl st1 m n [H1 [H2 [H3 [H4 [H5 H6]]]]] H7. exact (reports_size_limit c st id idl H1 size sl H2 H3 st1 H4 H5 H6 H7 m n). Qed.
+
+(* all seven pass: the header is returned - id, type, size, header length idl + sl *)
+Theorem C13_header_accepted : forall c st id idl size sl st1, checks_1_to_5 c st id idl size sl st1 ->
+  negb (c_allow_over c) && p_invalid_tag_size st1 (N.of_nat (idl + sl) + ksz (ebml_size size sl)) = false ->
+  (forall m n, c_max c = Some m -> ebml_size size sl = SKnown n -> n <= m) ->
+  p_header c st = (st1, Ok (id, get_type (c_sp c) id, ebml_size size sl, (idl + sl)%nat)).
+Proof. intros c st id idl size sl st1 [H1 [H2 [H3 [H4 [H5 H6]]]]]. exact (header_accepted c st id idl H1 size sl H2 H3 st1 H4 H5 H6). Qed.
+
+(* and back, for the errors that C13_header_error_kinds leaves loose: an OversizedChildElement / InvalidTagSize / InvalidTagId
+   error implies that every earlier check passed, with the header length actually decoded (not an existential one) *)
+Theorem C13_oversized_error_fields : forall c st st' pos id n, p_header c st = (st', Err (ROversized pos id n)) ->
+  exists idl size sl, checks_1_to_5 c st id idl size sl st' /\ pos = b_off st /\ n = ksz (ebml_size size sl) /\
+    c_allow_over c = false /\ p_invalid_tag_size st' (N.of_nat (idl + sl) + n) = true.
+Proof. exact oversized_error_fields. Qed.
+Theorem C13_invalid_size_error_fields : forall c st st' pos id n, p_header c st = (st', Err (RInvalidSize pos id n)) ->
+  exists idl size sl m, checks_1_to_5 c st id idl size sl st' /\ pos = b_off st /\
+    negb (c_allow_over c) && p_invalid_tag_size st' (N.of_nat (idl + sl) + n) = false /\
+    c_max c = Some m /\ ebml_size size sl = SKnown n /\ m < n.
+Proof. exact invalid_size_error_fields. Qed.
+Theorem C13_invalid_id_error_fields : forall c st st' pos id, p_header c st = (st', Err (RInvalidTagId pos id)) ->
+  st' = st /\ pos = b_off st /\ get_type (c_sp c) id = None /\ c_allow_id c = false /\
+  exists idl size sl, p_tag_id st = Ok (id, idl) /\ read_vint (firstn 8 (skipn idl (b_bytes st))) = Ok (Some (size, sl)).
+Proof. exact invalid_id_error_fields. Qed.
+
+(* priority, concretely: one element with three faults - unknown id 0x99, not inside any master it could belong to, and
+   declaring 2^56-2 bytes against a limit of 5 and inside a Root of 3 bytes.  Strict: the id check (4) wins; tolerating unknown
+   ids: the containment check (6) wins (check 5 is skipped for an unknown id); tolerating that too: the size limit (7) *)
+Example C13_priority_ex :
+  let mk a o := {| c_sp := [ {| e_id := 129; e_ty := DMaster; e_path := [] |} ]; c_allow_id := a; c_allow_hier := false; c_allow_over := o; c_max := Some 5; c_buffered := []; c_emit_eof := true |} in
+  let input := [129; 131; 153; 1; 255; 255; 255; 255; 255; 255; 254] in
+  p_run (mk false false) input [RAll] = [OItem (TStart 129) 0; OErr (RInvalidTagId 2 153)] /\
+  p_run (mk true false) input [RAll] = [OItem (TStart 129) 0; OErr (ROversized 2 153 72057594037927934)] /\
+  p_run (mk true true) input [RAll] = [OItem (TStart 129) 0; OErr (RInvalidSize 2 153 72057594037927934)].
+Proof. vm_compute. repeat split; reflexivity. Qed.
 
 Example C13_ex :
   let sp := [ {| e_id := 129; e_ty := DMaster; e_path := [] |}; {| e_id := 16641; e_ty := DUInt; e_path := [PId 129] |} ] in
@@ -158,3 +279,20 @@ Example C13_nonbyte_ex :
   p_run (mk false) input [RAll] = [OItem (TStart 129) 0; OItem (TStart 16644) 2; OItem (TEnd 16644) 2; OErr (RInvalidTagId 8 153)] /\
   p_run (mk true) input [RAll] = [OItem (TStart 129) 0; OItem (TStart 16644) 2; OPanic].
 Proof. vm_compute. split; reflexivity. Qed.
+
+(* Tolerating unknown ids changes nothing for the ids the specification declares: under EVERY configuration, input and call sequence a raw
+   tag - on its own or anywhere inside a buffered (Full) master - is handed out only for an id the specification does not declare
+   ([raw_undeclared sp t]: every raw (sub)tag of t has get_type sp id = None) ... *)
+Theorem C13_raw_only_for_undeclared_ids : forall c input ops,
+  Forall (fun o => match o with OItem t _ => raw_undeclared (c_sp c) t | _ => True end) (p_run c input ops).
+Proof. exact run_raw_only_undeclared. Qed.
+
+(* ... also on the buffered machine for every capacity and chunking ... *)
+Theorem C13_raw_only_for_undeclared_ids_buffered : forall c cap0 script input ops, calm script ->
+  Forall (fun o => match o with OItem t _ => raw_undeclared (c_sp c) t | _ => True end) (run_reader c cap0 script input ops).
+Proof. exact buffered_run_raw_only_undeclared. Qed.
+
+(* ... and per tag: the tag read for an id is raw exactly when the id is undeclared *)
+Theorem C13_raw_iff_undeclared : forall c st st' p, p_read_tag c st = (st', Ok p) ->
+  (get_type (c_sp c) (tag_id (p_tag p)) = None <-> exists bs, p_tag p = TElem (tag_id (p_tag p)) (VRaw bs)).
+Proof. exact p_read_tag_raw_iff. Qed.
